@@ -123,6 +123,12 @@ func (w *World) setCur(t int, rs *reqState) {
 	w.cur[t] = rs
 }
 
+//go:norace
+func (w *World) setIdentify(p *string) { w.identify = p }
+
+//go:norace
+func (w *World) getIdentify() *string { return w.identify }
+
 type BuildOpt struct {
 	NoCache bool
 }
@@ -267,8 +273,8 @@ func (w *World) Identify(f rux.HandlerFunc) (id string) {
 	if f == nil {
 		return ""
 	}
-	w.identify = &id
-	defer func() { w.identify = nil; recover() }()
+	w.setIdentify(&id)
+	defer func() { w.setIdentify(nil); recover() }()
 	f(nil)
 	return
 }
@@ -314,8 +320,8 @@ type swapKey struct{}
 
 // play is the body of every harness handler.
 func (w *World) play(id string, c *rux.Context) {
-	if w.identify != nil {
-		*w.identify = id
+	if p := w.getIdentify(); p != nil {
+		*p = id
 		return
 	}
 	rs := w.curState()
@@ -539,6 +545,21 @@ func (w *World) Serve(task, idx int, rq *Req) *ReqRec {
 	t := shCur()
 	w.setCur(t, rs)
 	rec.StartSeq = shNextSeq()
+	if rq.Kind == "match" {
+		func() {
+			defer func() {
+				if r := recover(); r != nil {
+					rec.Escaped = panicString(r)
+				}
+			}()
+			route, ps, allowed := w.R.Match(rq.Method, rq.Path)
+			rec.Trace = append(rec.Trace, TItem{K: "match", V: w.matchString(route, ps, allowed)})
+			rec.Returned = true
+		}()
+		rec.EndSeq = shNextSeq()
+		w.setCur(t, nil)
+		return rec
+	}
 	func() {
 		defer func() {
 			if r := recover(); r != nil {
@@ -656,4 +677,18 @@ func (w *World) BuiltinFallback(method, path string) bool {
 		return len(w.notAllow) == 0
 	}
 	return len(w.notFound) == 0
+}
+
+func (w *World) matchString(route *rux.Route, ps rux.Params, allowed []string) string {
+	al := append([]string{}, allowed...)
+	sort.Strings(al)
+	if route == nil {
+		return "route=nil params=" + sortedKV(ps) + " allowed=[" + strings.Join(al, ",") + "]"
+	}
+	var mw []string
+	for _, h := range route.Handlers() {
+		mw = append(mw, w.Identify(h))
+	}
+	return "route=" + w.Identify(route.Handler()) + " path=" + route.Path() + " name=" + route.Name() +
+		" methods=" + strings.Join(route.Methods(), ",") + " mw=[" + strings.Join(mw, ",") + "] params=" + sortedKV(ps) + " allowed=[" + strings.Join(al, ",") + "]"
 }
